@@ -323,8 +323,15 @@ impl<const BITS: usize, const LIMBS: usize> Uint<BITS, LIMBS> {
             r.limbs[i + limbs] = (x << bits) | carry;
             carry = (x >> (word_bits - bits - 1)) >> 1;
         }
+        // Non-zero bits are also lost in the whole limbs shifted out and in
+        // the bits of the top limb removed by the mask.
+        let mut overflow = carry != 0;
+        for i in Self::LIMBS - limbs..Self::LIMBS {
+            overflow |= self.limbs[i] != 0;
+        }
+        overflow |= r.limbs[LIMBS - 1] > Self::MASK;
         r.apply_mask();
-        (r, carry != 0)
+        (r, overflow)
     }
 
     /// Left shift by `rhs` bits.
